@@ -57,7 +57,7 @@ func run(c Case) (res vh.Result) {
 	n := atomic.AddInt64(&caseSeq, 1)
 	wf := fmt.Sprintf("wf%dx%d", os.Getpid(), n)
 	var sb strings.Builder
-	fmt.Fprintf(&sb, "name: %s\ndefaults:\n  deploy_timeout: 3s\nroles:\n", wf)
+	fmt.Fprintf(&sb, "name: %s\ndefaults:\n  deploy_timeout: 6s\nroles:\n", wf)
 	cls := make([]string, len(c.Tasks))
 	idx := map[string]int{}
 	role := func(i int, indent string) {
@@ -376,7 +376,7 @@ func gen(t *rapid.T) Case {
 
 func TestFaults(t *testing.T) {
 	defer simworld.Discard()
-	vh.Check(t, prop, gen, run)
+	vh.Check(t, prop, gen, vh.Confirmed(run))
 }
 
 func two(crit0, crit1 bool) []TaskSpec {
@@ -392,7 +392,7 @@ func TestFixedMatrix(t *testing.T) {
 				if crit && k == "TASK_FINISHED" && (vh.Open("KF-C03-task-finished") || vh.Open("KF-C03-task-finished-configured")) {
 					continue
 				}
-				vh.Fixed(t, prop, fmt.Sprintf("%s-%s-critical=%v", k, st, crit), Case{Tasks: two(crit, true), State: st, Victim: 0, Kind: k, Instant: "idle"}, run)
+				vh.Fixed(t, prop, fmt.Sprintf("%s-%s-critical=%v", k, st, crit), Case{Tasks: two(crit, true), State: st, Victim: 0, Kind: k, Instant: "idle"}, vh.Confirmed(run))
 			}
 		}
 	}
@@ -400,11 +400,11 @@ func TestFixedMatrix(t *testing.T) {
 
 func TestCanaryTaskFinished(t *testing.T) {
 	defer simworld.Discard()
-	vh.Canary(t, prop, "KF-C03-task-finished", Case{Tasks: two(true, true), State: "RUNNING", Victim: 0, Kind: "TASK_FINISHED", Instant: "idle"}, run)
+	vh.Canary(t, prop, "KF-C03-task-finished", Case{Tasks: two(true, true), State: "RUNNING", Victim: 0, Kind: "TASK_FINISHED", Instant: "idle"}, vh.Confirmed(run))
 }
 
 
 func TestCanaryTaskFinishedConfigured(t *testing.T) {
 	defer simworld.Discard()
-	vh.Canary(t, prop, "KF-C03-task-finished-configured", Case{Tasks: two(true, true), State: "CONFIGURED", Victim: 0, Kind: "TASK_FINISHED", Instant: "idle"}, run)
+	vh.Canary(t, prop, "KF-C03-task-finished-configured", Case{Tasks: two(true, true), State: "CONFIGURED", Victim: 0, Kind: "TASK_FINISHED", Instant: "idle"}, vh.Confirmed(run))
 }
